@@ -15,10 +15,24 @@ from harness.common import MachineryFailure
 CTX = {"c1": "a", "c2": "b"}                  # model context -> script file (global context file.<name>)
 NAMES = ["n1", "n2", "n3"]
 FNS = ["g1", "g2", "g3"]
+# done-callback functions by kind of callable (model: each one is ONE element of Fn, whatever its kind):
+#   def      pyscript functions (EvalFuncVar)                      closure  pyscript function made by a nested def
+#   native   @pyscript_compile functions (plain Python functions)  conative @pyscript_compile coroutine function
+#   lambda   a pyscript lambda (compiled natively)                 pybound  bound methods of two plain Python objects
+#   method   bound methods of two instances of a pyscript class (looked up anew at every add / remove)
+FN_KINDS = {"def": ["g1", "g2", "g3"], "closure": ["q1"], "native": ["p1", "p2"], "conative": ["a1"],
+            "lambda": ["l1"], "pybound": ["b1", "b2"], "method": ["m1", "m2"]}
+KIND_OF = {f: k for k, fs in FN_KINDS.items() for f in fs}
+ALL_FNS = [f for fs in FN_KINDS.values() for f in fs]
+# what a callback of each kind can be told to do (a plain function cannot suspend)
+FN_BEH = {"def": ["ret", "raise", "sleep", "sleepraise"], "closure": ["ret", "raise", "sleep", "sleepraise"],
+          "method": ["ret", "raise", "sleep", "sleepraise"], "conative": ["ret", "raise", "sleep", "sleepraise"],
+          "native": ["ret", "raise"], "pybound": ["ret", "raise"], "lambda": ["ret"]}
 TASKS = ["t1", "t2", "t3", "t4", "t5", "t6"]
 FOREIGN = ["f1", "f2"]
 ALL_FLAGS = ["foreign-killme-cancelled", "cb-raise-breaks", "cancel-in-cb-skips-cleanup",
-             "cancel-unstarted-typeerror", "svc-addcb-keyerror", "deco-killme-claims"]
+             "cancel-unstarted-typeerror", "svc-addcb-keyerror", "deco-killme-claims", "call-couples-cancel",
+             "method-cb-per-lookup"]
 WHAT = {
     "foreign-killme-cancelled": "a task not started by pyscript that calls task.unique(n, kill_me=True) while another task owns n is cancelled (documentation: does nothing)",
     "cb-raise-breaks": "a done-callback that raises stops the remaining done-callbacks of the task",
@@ -26,6 +40,8 @@ WHAT = {
     "cancel-unstarted-typeerror": "task.cancel(t) before t's first step (right after task.create) raises TypeError: t is not yet in our_tasks",
     "svc-addcb-keyerror": "task.add_done_callback on a task started by a service call raises KeyError: run_coro gets no ast_ctx, so the task has no task2cb entry",
     "deco-killme-claims": "legacy @task_unique(n, kill_me=True): of two same-instant trigger occurrences the later one cancels the earlier one (the kill_me check is made when the trigger fires, the claim at the first step is made without kill_me)",
+    "call-couples-cancel": "a blocking pyscript-to-pyscript service call ties caller and callee together: cancelling the blocked caller cancels the called run, a cancelled called run cancels its caller (the handler awaits the callee's task inside the caller's task)",
+    "method-cb-per-lookup": "a bound method of a pyscript class instance is wrapped anew at every attribute lookup and the wrappers do not compare equal: adding obj.m again registers a second callback (both run), task.remove_done_callback(t, obj.m) removes nothing",
     "cb-shared-interpreter": "done-callbacks of different tasks that are suspended at overlapping times share one interpreter context (the AstEval in which the callback function was defined): their local variables are mixed up unless they resume in LIFO order",
     "unexplained": "recording is not a behaviour of the Tasks model under any known deviation",
 }
@@ -49,16 +65,77 @@ def _cb(tag, f, arg, beh, d):
             raise ValueError("cb")
     vf.rec("cbop", tag, f, "ret", 0)
 
-def g1(tag, arg, beh, d):
+def g1(tag, arg, beh, d, rec=None):
     _cb(tag, "g1", arg, beh, d)
 
-def g2(tag, arg, beh, d):
+def g2(tag, arg, beh, d, rec=None):
     _cb(tag, "g2", arg, beh, d)
 
-def g3(tag, arg, beh, d):
+def g3(tag, arg, beh, d, rec=None):
     _cb(tag, "g3", arg, beh, d)
 
-FN = {"g1": g1, "g2": g2, "g3": g3}
+def _mk(f):
+    def inner(tag, arg, beh, d, rec=None):
+        _cb(tag, f, arg, beh, d)
+    return inner
+
+q1 = _mk("q1")
+
+@pyscript_compile
+def p1(tag, arg, beh, d, rec=None):
+    rec("cb", tag, "p1", arg)
+    if beh == "raise":
+        rec("cbop", tag, "p1", "raise", 0)
+        raise ValueError("cb")
+    rec("cbop", tag, "p1", "ret", 0)
+
+@pyscript_compile
+def p2(tag, arg, beh, d, rec=None):
+    rec("cb", tag, "p2", arg)
+    if beh == "raise":
+        rec("cbop", tag, "p2", "raise", 0)
+        raise ValueError("cb")
+    rec("cbop", tag, "p2", "ret", 0)
+
+@pyscript_compile
+async def a1(tag, arg, beh, d, rec=None):
+    import asyncio
+    rec("cb", tag, "a1", arg)
+    if beh == "raise":
+        rec("cbop", tag, "a1", "raise", 0)
+        raise ValueError("cb")
+    if beh == "sleep" or beh == "sleepraise":
+        rec("cbop", tag, "a1", "sleep", d)
+        await asyncio.sleep(d)
+        rec("cbres", tag)
+        if beh == "sleepraise":
+            rec("cbop", tag, "a1", "raise", 0)
+            raise ValueError("cb")
+    rec("cbop", tag, "a1", "ret", 0)
+
+l1 = lambda tag, arg, beh, d, rec=None: (rec("cb", tag, "l1", arg), rec("cbop", tag, "l1", "ret", 0))
+
+class _K:
+    def __init__(self, f):
+        self.f = f
+
+    def m(self, tag, arg, beh, d, rec=None):
+        _cb(tag, self.f, arg, beh, d)
+
+k1 = _K("m1")
+k2 = _K("m2")
+
+FN = {"g1": g1, "g2": g2, "g3": g3, "q1": q1, "p1": p1, "p2": p2, "a1": a1, "l1": l1}
+
+def _fn(f):
+    # what a script writes at the call site: a bound method is looked up anew every time
+    if f == "m1":
+        return k1.m
+    if f == "m2":
+        return k2.m
+    if f == "b1" or f == "b2":
+        return vf.sink(f).hit
+    return FN[f]
 
 def _seen(t):
     if t.cancelled():
@@ -103,6 +180,19 @@ def worker(tag, prog):
             except TypeError:
                 r = -2
             vf.rec("xres", tag, r)
+        elif k == "call":
+            # ["call", callee tag, callee program, blocking, context of the service, api form]
+            vf.rec("op", tag, "call", op[1], op[3], op[4], i)
+            if op[5] == "attr" and op[4] == "c1":
+                pyscript.svc_c1(tag=op[1], prog=op[2], blocking=op[3])
+            elif op[5] == "attr":
+                pyscript.svc_c2(tag=op[1], prog=op[2], blocking=op[3])
+            elif op[3]:
+                service.call("pyscript", "svc_" + op[4], blocking=True, tag=op[1], prog=op[2])
+            else:
+                service.call("pyscript", "svc_" + op[4], tag=op[1], prog=op[2])
+            if op[3]:
+                vf.rec("res", tag, "called")
         else:
             tgt = task.current_task() if op[1] == "self" else vf.task(op[1])
             who = tag if op[1] == "self" else op[1]
@@ -121,14 +211,14 @@ def worker(tag, prog):
             elif k == "addcb":
                 vf.rec("op", tag, "addcb", who, op[2], op[3], i)
                 try:
-                    task.add_done_callback(tgt, FN[op[2]], who, op[3], op[4], op[5])
+                    task.add_done_callback(tgt, _fn(op[2]), who, op[3], op[4], op[5], rec=vf.rec)
                 except Exception as e:
                     vf.rec("exc", tag, type(e).__name__)
                     raise ValueError("api")
             elif k == "rmcb":
                 vf.rec("op", tag, "rmcb", who, op[2], i)
                 try:
-                    task.remove_done_callback(tgt, FN[op[2]])
+                    task.remove_done_callback(tgt, _fn(op[2]))
                 except Exception as e:
                     vf.rec("exc", tag, type(e).__name__)
                     raise ValueError("api")
@@ -182,6 +272,21 @@ def ms(x):
     return int(round(x * 1000))
 
 
+class Sink:
+    """A plain Python object whose bound method `hit` serves as a done-callback (kind pybound)."""
+
+    def __init__(self, f, rec):
+        self.f = f
+        self.rec = rec
+
+    def hit(self, tag, arg, beh, d, rec=None):
+        self.rec("cb", tag, self.f, arg)
+        if beh == "raise":
+            self.rec("cbop", tag, self.f, "raise", 0)
+            raise ValueError("cb")
+        self.rec("cbop", tag, self.f, "ret", 0)
+
+
 def run_scenario(scn):
     """Execute one scenario on the real integration; returns the case for TasksTrace:
     {"id", "flags": [], "trace": [lines]} plus the scenario itself."""
@@ -204,7 +309,15 @@ def run_scenario(scn):
     def vf_prog(tag):
         return progs.get(tag, [])
 
-    funcs = {"vf.reg": vf_reg, "vf.task": vf_task, "vf.prog": vf_prog}
+    sinks = {}
+    box = {}
+
+    def vf_sink(f):
+        if f not in sinks:
+            sinks[f] = Sink(f, lambda *a: box["w"].rec.append((box["w"].vt(), a, {})))
+        return sinks[f]
+
+    funcs = {"vf.reg": vf_reg, "vf.task": vf_task, "vf.prog": vf_prog, "vf.sink": vf_sink}
 
     async def pre(hass):
         Function.register(funcs)
@@ -219,6 +332,7 @@ def run_scenario(scn):
 
     async def body(w):
         Function.register(funcs)
+        box["w"] = w
         w.take()
         base_ours = len(Function.our_tasks)
         hold = []
@@ -287,7 +401,8 @@ def run_scenario(scn):
 def suspension_points(case):
     """Suspension points of a recorded scenario: (task, kind, index, instant ms, duration ms) for every
     park of >= 1 s: body sleeps (index = position of the sleep in the task's program), task.wait
-    (position of the wait), sleeps inside done-callbacks (index = callback function)."""
+    (position of the wait), blocking service calls (position of the call: the caller is parked until the
+    called run is done), sleeps inside done-callbacks (index = callback function)."""
     pts = []
     tr = case["trace"]
     nth = {}
@@ -296,11 +411,11 @@ def suspension_points(case):
             nth[ln["t"]] = nth.get(ln["t"], -1) + 1
         if ln["k"] == "op" and ln["op"] == "sleep" and ln["d"] >= 1000:
             pts.append((ln["t"], "sleep", ln["i"], ln["ts"], ln["d"]))
-        elif ln["k"] == "op" and ln["op"] == "wait":
+        elif ln["k"] == "op" and (ln["op"] == "wait" or (ln["op"] == "call" and ln["bl"])):
             end = [x["ts"] for x in tr[j + 1:] if x["k"] == "res" and x["t"] == ln["t"]]
             dur = (end[0] - ln["ts"]) if end else 100000
             if dur >= 1000:
-                pts.append((ln["t"], "wait", ln["i"], ln["ts"], dur))
+                pts.append((ln["t"], ln["op"], ln["i"], ln["ts"], dur))
         elif ln["k"] == "cbop" and ln["b"] == "sleep" and ln["d"] >= 1000:
             pts.append((ln["t"], "cb", ln["f"], ln["ts"], ln["d"]))
     return pts
@@ -338,6 +453,8 @@ def lines_of(recs):
                 ln.update(v=a[3], f=a[4])
             elif o == "exec":
                 ln.update(mode=a[3], x=a[4])
+            elif o == "call":
+                ln.update(ch=a[3], bl=bool(a[4]), c=a[5])
             out.append(ln)
         elif k == "xres":
             out.append({"k": "xres", "t": a[1], "r": a[2], "ts": ts})
@@ -405,7 +522,7 @@ def classify(ctx, rejected, label):
     triples = [[a, b, c] for i, a in enumerate(ALL_FLAGS) for j, b in enumerate(ALL_FLAGS[i + 1:], i + 1)
                for c in ALL_FLAGS[j + 1:]]
     # few rejections: singles and pairs in one TLC run (a JVM start costs more than the extra cases)
-    stages = [singles + pairs, triples] if len(todo) <= 40 else [singles, pairs + triples]
+    stages = [singles + pairs, triples] if len(todo) <= 12 else [singles, pairs + triples]
     for stage, combos in enumerate(stages):
         if not todo:
             break
@@ -464,6 +581,47 @@ def corruptions(cases, want):
     return bad, expect
 
 
+def corruptions_round3(cases, want):
+    """Corrupted copies of recordings of the kinds added in round 3 (what the -b seeds did to the code):
+    (a) after a remove_done_callback, the invocation of ANOTHER registered callback is dropped (a removal that
+        removes more than the one function): TLC must reject it - the task cannot finish its exit protocol;
+    (b) after a blocking service call returned, the still living caller is missing from our_tasks in the next
+        snapshot (the called run cleaned up the caller): TLC must reject it at exactly that snapshot.
+    Returns (corrupted cases, {id: (base id, line, exact)})."""
+    bad, expect = [], {}
+    na = nb = 0
+    for c in cases:
+        tr = c["trace"]
+        if na < want:
+            # (not where a done-callback of that task was suspended: a cancellation arriving there may legitimately
+            # keep the remaining callbacks from running)
+            susp = {x["t"] for x in tr if x["k"] == "cbop" and x["b"] == "sleep"}
+            rm = [(j, ln) for j, ln in enumerate(tr) if ln["k"] == "op" and ln["op"] == "rmcb" and ln["v"] not in susp]
+            for (j, ln) in rm:
+                hit = [i for i in range(j + 1, len(tr) - 1) if tr[i]["k"] == "cb" and tr[i]["t"] == ln["v"] and tr[i]["f"] != ln["f"]
+                       and tr[i + 1]["k"] == "cbop" and tr[i + 1]["b"] in ("ret", "raise")]
+                if hit:
+                    i = hit[0]
+                    cid = "corrupt-rmcb-more/" + c["id"]
+                    bad.append({"id": cid, "flags": [], "trace": tr[:i] + tr[i + 2:]})
+                    expect[cid] = (c["id"], i + 1, False)
+                    na += 1
+                    break
+        if nb < want:
+            for j, ln in enumerate(tr):
+                if ln["k"] == "res" and ln["w"] == "called":
+                    nxt = [i for i in range(j + 1, len(tr)) if tr[i]["k"] == "snap"]
+                    if nxt and ln["t"] in tr[nxt[0]]["ours"]:
+                        i = nxt[0]
+                        c2 = {"id": "corrupt-caller-forgotten/" + c["id"], "flags": [], "trace": copy.deepcopy(tr)}
+                        c2["trace"][i]["ours"] = [t for t in c2["trace"][i]["ours"] if t != ln["t"]]
+                        bad.append(c2)
+                        expect[c2["id"]] = (c["id"], i + 1, True)
+                        nb += 1
+                        break
+    return bad, expect, {"rmcb_removes_more": na, "caller_forgotten_by_callee": nb}
+
+
 def overlapping_callbacks(case):
     """Input class of the finding cb-shared-interpreter: done-callbacks of two different tasks are
     suspended at overlapping times (taken from the recording's cbop sleep lines)."""
@@ -477,7 +635,20 @@ def validate(ctx, prop, cases, label, masked_ids=(), selftest_want=0):
     report every rejection with the deviation flags that explain it."""
     bad, expect = corruptions([c for c in cases if c["id"] in masked_ids] + [c for c in cases if c["id"] not in masked_ids],
                               3 * selftest_want) if selftest_want else ([], {})
-    rej, res = accept(ctx, [slim(c) for c in cases] + bad, label, coverage=True)
+    bad3, expect3, n3 = corruptions_round3(cases, selftest_want) if (selftest_want and prop == "C14") else ([], {}, {})
+    rej, res = accept(ctx, [slim(c) for c in cases] + bad + bad3, label, coverage=True)
+    if bad3 or (selftest_want and prop == "C14"):
+        chk = {i: (b, ln, ex) for i, (b, ln, ex) in expect3.items() if b not in rej}
+        wrong = [(i, rej.get(i), ln) for i, (b, ln, ex) in chk.items()
+                 if (rej.get(i) != ln if ex else not (rej.get(i) and rej[i] >= ln))]
+        if wrong:
+            raise MachineryFailure("selftest: corrupted recordings (round 3 kinds) not rejected: %s" % wrong[:3])
+        for key in n3:
+            got = len([i for i in chk if i.startswith({"rmcb_removes_more": "corrupt-rmcb-more/",
+                                                       "caller_forgotten_by_callee": "corrupt-caller-forgotten/"}[key])])
+            ctx.cov.setdefault("selftest_round3", {})[key] = got
+            if not got and not any(c["id"] in rej and c["id"] in masked_ids for c in cases):
+                raise MachineryFailure("selftest: no accepted recording to corrupt for %s" % key)
     if selftest_want:
         checked = {i: (b, ln) for i, (b, ln) in expect.items() if b not in rej}
         wrong = [(i, rej.get(i), ln) for i, (b, ln) in checked.items() if rej.get(i) != ln]
@@ -517,7 +688,7 @@ def validate(ctx, prop, cases, label, masked_ids=(), selftest_want=0):
 # ------------------------------------------------------------------------------------------------
 # (M): configurations of spec/Tasks.tla
 def mc_cfg(ctx, name, consts, invariants, symmetry=True, witness=False):
-    base = {"Task": "{t1, t2, t3}", "Foreign": "{}", "Name": "{n1, n2}", "Ctx": "{c1, c2}", "Fn": "{}",
+    base = {"Task": "{t1, t2, t3}", "Foreign": "{}", "Name": "{n1, n2}", "Ctx": "{c1, c2}", "Fn": "{}", "MethFn": "{}",
             "MaxArg": "1", "MaxOps": "2", "MaxEnv": "0", "Ops": '{"unique", "sleep", "raise"}',
             "Kinds": '{"svc"}', "Decos": "{}", "Flags": "{}", "None": "None"}
     base.update(consts)
@@ -549,7 +720,8 @@ C13_INV = ["TypeOK", "MapsConsistent", "OwnerIsLastLiveClaimant", "OwnerIsLiveOu
            "ReleasedWhenOwnerEnds", "ContextsIndependent", "ForeignNeverCancelled", "KillMeKillsCallerIffOtherLiveOwner",
            "DoneInNoRegistry"]
 C14_INV = ["TypeOK", "MapsConsistent", "OwnerIsLastLiveClaimant", "ReleasedWhenOwnerEnds", "CallbacksExactlyOncePerFunction",
-           "DoneInNoRegistryAtQuiescence", "DoneInNoRegistry", "ApiCallsAccepted", "NoRunBlocksAnother", "WaitReflectsOutcome"]
+           "DoneInNoRegistryAtQuiescence", "DoneInNoRegistry", "ApiCallsAccepted", "NoRunBlocksAnother", "WaitReflectsOutcome",
+           "OnlyReapedAreCancelled"]
 
 # for each deviation flag: a small configuration and the invariant it must violate
 FLAG_DEMOS = {
@@ -566,6 +738,10 @@ FLAG_DEMOS = {
                                     "Kinds": '{"trig"}'}, C14_INV, ("ApiCallsAccepted",)),
     "svc-addcb-keyerror": ({"Task": "{t1}", "Name": "{n1}", "Ctx": "{c1}", "Fn": "{g1}", "Ops": '{"addcb"}',
                             "Kinds": '{"svc"}'}, C14_INV, ("ApiCallsAccepted",)),
+    "call-couples-cancel": ({"Task": "{t1, t2}", "Name": "{n1}", "Ctx": "{c1}", "MaxEnv": "1", "Ops": '{"call", "sleep"}',
+                             "Kinds": '{"trig"}'}, C14_INV, ("OnlyReapedAreCancelled",)),
+    "method-cb-per-lookup": ({"Task": "{t1}", "Name": "{n1}", "Ctx": "{c1}", "Fn": "{g1}", "MethFn": "{g1}", "MaxArg": "2",
+                              "Ops": '{"addcb"}', "Kinds": '{"trig"}'}, C14_INV, ("CallbacksExactlyOncePerFunction",)),
 }
 
 
